@@ -25,6 +25,12 @@
   (ite (is-POwnerEarned p) (and (is-KOwnerEarned k) (= (koe_owner k) (poe_owner p)))
   false))))))))))))))))))))
 
+; enum values of RequestContextState / RequestContextBatchState (generated constants of types/service.pb.go)
+(define-fun RUNNING () Int 0)
+(define-fun PAUSED () Int 1)
+(define-fun COMPLETED () Int 2)
+(define-fun BATCHRUNNING () Int 0)
+(define-fun BATCHCOMPLETED () Int 1)
 ; prefix iterators over a snapshot
 (declare-fun itCount ((Array Key Bytes) Prefix) Int)
 (declare-fun itKey ((Array Key Bytes) Prefix Int) Key)
@@ -114,12 +120,6 @@
 (assert (= g_types_ResponseKey (pbytes PAllResp)))
 (assert (= g_types_EarnedFeesKey (pbytes PAllEarned)))
 
-; enum values of RequestContextState / RequestContextBatchState (generated constants of types/service.pb.go)
-(define-fun RUNNING () Int 0)
-(define-fun PAUSED () Int 1)
-(define-fun COMPLETED () Int 2)
-(define-fun BATCHRUNNING () Int 0)
-(define-fun BATCHCOMPLETED () Int 1)
 ; scheduling views
 (define-fun hasExp ((r (Array Key Bytes)) (id Bytes)) Bool (not (= (select r (KExpH id)) bnil)))
 (define-fun hasNew ((r (Array Key Bytes)) (id Bytes)) Bool (not (= (select r (KNewH id)) bnil)))
@@ -207,7 +207,10 @@
 ; I_orphan (part): every pending marker has its request, context and binding, names its own request, and its consumer is an ordinary account
 (define-fun actOK ((r (Array Key Bytes)) (rid Bytes)) Bool
   (=> (isActive r rid) (and (requestFound r rid) (bindFound r (reqSvc r rid) (reqProv r rid)) (ordinary (reqConsumer r rid))
-        (= (BytesValue_Value (dec_BytesValue (select r (KActID rid)))) rid))))
+        (= (BytesValue_Value (dec_BytesValue (select r (KActID rid)))) rid)
+        ; a pending request belongs to the current, still open batch of its context
+        (= (CompactRequest_RequestContextBatchCounter (reqOf r rid)) (RequestContext_BatchCounter (ctxOf r (reqCtxId r rid))))
+        (not (= (RequestContext_BatchState (ctxOf r (reqCtxId r rid))) BATCHCOMPLETED)))))
 (define-fun actInv ((r (Array Key Bytes))) Bool (forall ((rid Bytes)) (! (actOK r rid) :pattern ((select r (KActID rid))))))
 
 ; ---- listings (queries): records under a prefix, in key order
